@@ -225,20 +225,20 @@ func (c *Ctx) checkEffects(rule, fnKey string, f *ssa.Function, got, want []stri
 	}
 	g, w := map[string]bool{}, map[string]bool{}
 	for _, s := range got {
-		g[s] = true
+		g[normEffect(s)] = true
 	}
 	for _, s := range want {
-		w[s] = true
+		w[normEffect(s)] = true
 	}
 	for _, s := range want {
-		if g[s] {
+		if g[normEffect(s)] {
 			c.OK(rule, fnKey+" · "+s, f.Pos(), "effect present")
 		} else {
 			c.Bad(rule, fnKey+" · "+s, f.Pos(), "required effect missing; function's effects are: %s", strings.Join(got, " ;; "))
 		}
 	}
 	for _, s := range got {
-		if !w[s] {
+		if !w[normEffect(s)] {
 			c.Bad(rule, fnKey+" · unexpected", f.Pos(), "effect not in the specification table: %s", s)
 		}
 	}
@@ -260,7 +260,54 @@ func condShapes(f *ssa.Function) []string {
 	return out
 }
 
+// normEffect: a field increased by a per-element amount inside the loop over
+// the elements, and the same field increased once by the sum over the
+// elements, are one effect: store &L ← (L + Σ(0; X)).
+func normEffect(s string) string {
+	const arrow = " ← "
+	if !strings.HasPrefix(s, "store &") {
+		return s
+	}
+	k := strings.Index(s, arrow)
+	if k < 0 {
+		return s
+	}
+	loc, val := s[len("store &"):k], s[k+len(arrow):]
+	if len(val) < 2 || val[0] != '(' || matchParen(val, 0) != len(val)-1 {
+		return s
+	}
+	inner := val[1 : len(val)-1]
+	j := topLevelIndex(inner, " + ")
+	if j < 0 {
+		return s
+	}
+	a, b := inner[:j], inner[j+3:]
+	var x string
+	switch loc {
+	case a:
+		x = b
+	case b:
+		x = a
+	default:
+		return s
+	}
+	if strings.HasPrefix(x, "Σ(0; ") && matchParen(x, len("Σ")) == len(x)-1 {
+		x = x[len("Σ(0; ") : len(x)-1]
+	} else if !strings.Contains(x, "[*]") {
+		return "store &" + loc + arrow + "(" + loc + " + " + x + ")"
+	}
+	return "store &" + loc + arrow + "(" + loc + " + Σ(0; " + x + "))"
+}
+
 func sameStringSet(a, b []string) bool {
+	a = append([]string(nil), a...)
+	for i := range a {
+		a[i] = normEffect(a[i])
+	}
+	b = append([]string(nil), b...)
+	for i := range b {
+		b[i] = normEffect(b[i])
+	}
 	x, y := uniqSorted(a), uniqSorted(b)
 	return strings.Join(x, "\x00") == strings.Join(y, "\x00")
 }
